@@ -1,5 +1,6 @@
 import PngVerif.Driver.C14
 import PngVerif.Driver.C01
+import PngVerif.Driver.C15
 import PngVerif.Driver.Framing
 /-!
 `pngmodel`: line-protocol driver.  One case per input line, one canonical answer per output line,
@@ -12,6 +13,7 @@ def answer (line : String) : String :=
   match line.trimAscii.toString.splitOn " " with
   | "c14" :: args => c14 args
   | "c01" :: args => c01 args
+  | "c15" :: args => c15 args
   | "frm" :: args => frm args
   | _ => "bad-op"
 
